@@ -66,6 +66,9 @@ type step struct {
 	Hold       bool   `json:"hold,omitempty"`        // arrive: hold it between slot check and registration
 	HoldLate   bool   `json:"hold_late,omitempty"`   // ... at the later yield point: after the watch-list registration, before the enqueue
 	HoldRemove bool   `json:"hold_remove,omitempty"` // arrive: hold its clean-up goroutine before the removal
+	// HoldWait (arrive): the request's goroutine is held after its registration and before it starts to wait for
+	// its verdict, until the next tick (or the shutdown) has been processed: a verdict issued meanwhile must reach it
+	HoldWait bool `json:"hold_before_wait,omitempty"`
 	// Retry (arrive): the transaction carries the id of an earlier request of the case that was allowed, has
 	// returned and whose clean-up has finished (a retried call re-sends x-lunar-req-id); none such: a fresh id
 	Retry bool `json:"retry_with_the_id_of_an_allowed_request,omitempty"`
@@ -188,7 +191,9 @@ type rq struct {
 	hold       bool
 	holdLate   bool // hold at queue.between-watch-and-enqueue instead of queue.slot-checked
 	holdRemove bool
+	holdWait   bool // hold at queue.registered-before-wait until the controller has processed the next tick
 
+	atWait, waitReleased       bool
 	startSeq, checkSeq, regSeq int
 	arrivedAt                  time.Time
 
@@ -266,6 +271,14 @@ func installHooks() {
 			w.cond.Broadcast()
 			for r.hold && !r.slotReleased {
 				w.cond.Wait()
+			}
+		case "queue.registered-before-wait":
+			if r.holdWait {
+				r.atWait = true
+				w.cond.Broadcast()
+				for !r.waitReleased {
+					w.cond.Wait()
+				}
 			}
 		case "queue.before-remove":
 			r.atRemove = true
@@ -590,7 +603,7 @@ func (x *executor) arrive(st step) error {
 			x.rep.NonTrivial = true
 		}
 	}
-	r := &rq{ID: id, txid: txid, PrioName: st.Prio, P: prioNum(st.Prio), hold: st.Hold, holdLate: st.HoldLate, holdRemove: st.HoldRemove, startSeq: x.seq, checkSeq: x.seq, arrivedAt: x.clk.Now()}
+	r := &rq{ID: id, txid: txid, PrioName: st.Prio, P: prioNum(st.Prio), hold: st.Hold, holdLate: st.HoldLate, holdRemove: st.HoldRemove, holdWait: st.HoldWait, startSeq: x.seq, checkSeq: x.seq, arrivedAt: x.clk.Now()}
 	x.w.locked(func() { x.w.reqs[txid] = r })
 	x.order = append(x.order, r)
 	x.byID[id] = r
@@ -959,6 +972,21 @@ func (x *executor) observeTick(now time.Time, before []*rq, draining bool) error
 	return nil
 }
 
+// releaseWaits lets the request goroutines that are held between their registration and their wait go on.
+func (x *executor) releaseWaits() {
+	x.w.locked(func() {
+		for _, r := range x.order {
+			if r.holdWait && !r.waitReleased {
+				r.waitReleased = true
+				if r.atWait {
+					x.class("verdict-may-have-been-issued-before-the-request-waited")
+				}
+			}
+		}
+		x.w.cond.Broadcast()
+	})
+}
+
 func (x *executor) tick() error {
 	now := x.clk.Now().Add(tickStep)
 	before := x.waiting()
@@ -973,6 +1001,7 @@ func (x *executor) tick() error {
 	if _, err := x.clk.AdvanceSettle(tickStep, loopOwner); err != nil {
 		return inconclusive("%v", err)
 	}
+	x.releaseWaits()
 	err := x.observeTick(now, before, false)
 	x.prevTick, x.prevTickSeq = now, tickSeq
 	return err
@@ -1037,6 +1066,7 @@ func (x *executor) shutdown() error {
 	if countGoroutines(isLoop)-x.baseLoops > 0 {
 		x.class("shutdown:loop-kept-running")
 	}
+	x.releaseWaits()
 	// every waiter must be released now
 	if !x.w.wait(releaseWait, func() bool {
 		for _, r := range before {
@@ -1088,7 +1118,7 @@ func (x *executor) shutdown() error {
 func (x *executor) abort() {
 	x.w.locked(func() {
 		for _, r := range x.order {
-			r.slotReleased, r.remReleased = true, true
+			r.slotReleased, r.remReleased, r.waitReleased = true, true, true
 		}
 		x.w.cond.Broadcast()
 	})
@@ -1346,6 +1376,7 @@ func genSched() *rapid.Generator[sched] {
 					Hold:       rapid.IntRange(0, 7).Draw(t, "hold") == 7,
 					HoldLate:   rapid.Bool().Draw(t, "hold-late"),
 					HoldRemove: rapid.IntRange(0, 7).Draw(t, "holdrm") == 7,
+					HoldWait:   rapid.IntRange(0, 3).Draw(t, "holdwait") == 3,
 					Retry:      rapid.IntRange(0, 5).Draw(t, "retry") == 0})
 				if rapid.IntRange(0, 9).Draw(t, "loose1") == 9 {
 					out = append(out, loose.Draw(t, "l1"))
